@@ -158,6 +158,10 @@ theorem GInv.nodup {g : GSt} (hi : GInv g) : (g.granted.map (·.1) ++ g.tq).Nodu
   rw [hi.part]
   exact List.Pairwise.filter _ List.nodup_range
 
+theorem granted_queue_sorted {g : GSt} (hi : GInv g) : (g.granted.map (·.1) ++ g.tq).Pairwise (· < ·) := by
+  rw [hi.part]
+  exact List.Pairwise.filter _ List.pairwise_lt_range
+
 theorem filter_contains_snoc (l touts : List Nat) (k : Nat) :
     l.filter (fun j => !(touts ++ [k]).contains j) = (l.filter (fun j => !touts.contains j)).filter (fun j => j != k) := by
   rw [List.filter_filter]
